@@ -52,6 +52,24 @@ Example C10_ex :
   snd r1 = Some DialErr /\ snd r2 = Some (DialOk 3) /\ snd r3 = Some DialErr /\ snd r4 = Some (DialOk 4).
 Proof. vm_compute. repeat split. Qed.
 
+(** An arrival that passes admission but never becomes an established connection (the handshake after
+    TLS does not complete) leaves nothing behind: no entry, no event, and above all no used slot - what
+    the node admits afterwards is what it would have admitted without it. *)
+Theorem C10_failed_arrival_leaves_no_trace : forall w a b,
+  step w (FailedArrival a b) = (w, None).
+Proof. reflexivity. Qed.
+
+Theorem C10_failed_arrivals_do_not_count : forall w fails o,
+  (forall f, In f fails -> exists a b, f = FailedArrival a b) ->
+  step (run w fails) o = step w o.
+Proof.
+  intros w fails o H. assert (E : run w fails = w).
+  { revert w. induction fails as [|f t IH]; intros w; [reflexivity|]. unfold run. cbn [fold_left].
+    destruct (H f (or_introl eq_refl)) as [a [b ->]]. cbn [step fst].
+    apply IH. intros g Ig. apply H. now right. }
+  now rewrite E.
+Qed.
+
 Print Assumptions C10_never_rejected.
 Print Assumptions C10_high_allowed_bypass.
 Print Assumptions C10_other_iff_below_limit.
@@ -59,3 +77,5 @@ Print Assumptions C10_outbound_unlimited.
 Print Assumptions C10_count_grows_with_every_connection.
 Print Assumptions C10_slot_freed_on_disconnect.
 Print Assumptions C10_rejected_dialer_errors.
+Print Assumptions C10_failed_arrival_leaves_no_trace.
+Print Assumptions C10_failed_arrivals_do_not_count.
